@@ -1,6 +1,7 @@
 """Contract models of the compiled SciPy routines eqsig calls.  Concrete inputs are passed to
 the real routine; symbolic inputs run the documented algorithm on symbolic scalars."""
 import numpy as np
+from fractions import Fraction as Fraction_
 
 from . import scalars as S
 from .scalars import SR, SC, SymUnsupported, is_sym
@@ -84,6 +85,7 @@ def filtfilt(b, a, x, axis=-1, padtype='odd', padlen=None, method='pad', irlen=N
 
 
 def resample(x, num, t=None, axis=0, window=None, domain='time'):
+    """scipy.signal.resample for a real 1-D record (the rfft / irfft branch of SciPy's implementation)."""
     if not (_is_symarr(x) and contains_sym(x)):
         if _is_symarr(x):
             x = np.array(x.tolist(), dtype=float)
@@ -93,25 +95,37 @@ def resample(x, num, t=None, axis=0, window=None, domain='time'):
     num = int(num)
     xs = list(_plain(x))
     n = len(xs)
-    X = models.dft_1d(xs, n)
-    Y = [SC(0.0, 0.0) for _ in range(num)]
+    s_fac = n / num
     m = min(num, n)
-    nyq = m // 2 + 1
-    for k in range(nyq):
-        Y[k] = X[k]
-    if m > 2:
-        for k in range(nyq - m, 0):
-            Y[k] = X[k]
-    if m % 2 == 0:
-        if num < n:      # downsampling: fold the Nyquist bins
-            Y[-(m // 2)] = Y[-(m // 2)] + X[-(m // 2)] if False else Y[m // 2] + X[-(m // 2)]
-            Y[m // 2] = Y[-(m // 2)]
-        elif n < num:    # upsampling: split the Nyquist bin
-            Y[m // 2] = Y[m // 2] * 0.5
-            Y[num - m // 2] = Y[m // 2]
-    y = models.dft_1d(Y, num, inverse=True)
-    sc = float(num) / float(n)
-    return SymArr([v.re * sc for v in y])
+    m2 = m // 2 + 1
+    X = models.dft_1d(xs, n)[:n // 2 + 1][:m2]
+    if m % 2 == 0 and num != n:
+        X[m // 2] = X[m // 2] * (2.0 if num < n else 0.5)
+    X = [v * (1.0 / s_fac) if False else SC(v.re / s_fac, v.im / s_fac) for v in X]
+    K = num // 2 + 1
+    X = (X + [SC(0.0, 0.0)] * K)[:K]
+    out = []
+    for j in range(num):
+        tot = X[0].re
+        for k in range(1, K):
+            c, sn = models.twiddle(j * k, num)
+            term = _mulf(X[k].re, c) - _mulf(X[k].im, sn)
+            if num % 2 == 0 and k == num // 2:
+                tot = tot + term
+            else:
+                tot = tot + term * 2
+        out.append(tot * Fraction_(1, num) if isinstance(tot, SR) else tot / num)
+    return SymArr(out)
+
+
+def _mulf(v, f):
+    if f == 0:
+        return 0.0
+    if isinstance(v, SR):
+        return v * f
+    if v == 0:
+        return 0.0
+    return SR.const(Fraction_(float(v)) * f)
 
 
 class interp1d(object):
